@@ -149,7 +149,8 @@ CHECKS = {
        'of INBOX, newline, wildcard characters) with a symbolic LIST pattern against a set-of-names model incl. RENAME of inferiors and '
        'INBOX, NO => unchanged; (c) the maildir MailboxSet with a stub layout raising each documented exception: the session layer '
        'answers NO; (d) RENAME of a hierarchy keeps every inferior\'s suffix (symbolic names); (e) both maildir layouts: two different '
-       'ASCII names (<= 3+3 quick / 5+5 thorough symbolic characters) that the layout accepts never resolve to the same folder.',
+       'ASCII names (<= 3+3 quick / 5+5 thorough symbolic characters) that the layout accepts never resolve to the same folder, and no '
+       'accepted name (<= 5 quick / 7 thorough characters) resolves to a folder inside the cur/new/tmp directory of another folder or of INBOX.',
   note=TRUST + 'Names without empty components; ASCII case folding for INBOX. Outside: maildir directories, modified UTF-7 spelling (C18).',
   technique='symbolic execution of the real code with z3; symbolic regex matching vs. a z3 DP specification of the wildcards'),
  'C12': dict(
@@ -195,8 +196,10 @@ CHECKS = {
        '(temporary directory on the same or another file system: rename across devices fails with EXDEV) and the next UID are '
        'solver variables. After the kill nothing further takes effect; the control files are re-read by the real code: they parse, '
        'every acknowledged APPEND/COPY/MOVE/SUBSCRIBE/delete is there with its UID and content, no message is in neither store, no '
-       'UID is recorded twice, next UID above all records, and without a kill every operation is acknowledged in both '
-       'configurations.',
+       'UID is recorded twice, next UID above all records, a message still in its source folder keeps its record and UID, and without '
+       'a kill every operation is acknowledged in both configurations. Subscriptions file: the real write followed by the real read '
+       'for a symbolic ASCII name of 1..3 (quick) / 1..5 (thorough) characters gives the name back (one known finding: names with '
+       'CR or LF).',
   note=TRUST + 'Not covered, and not claimed: what mailbox.Maildir does inside one add() and for flag changes (standard library, '
        'real file system), CREATE/RENAME of folders, torn writes inside one file, more than one kill, lock files left behind by a '
        'kill. The claim is about the code of pymap listed in the evidence, on the stated file-system model.',
@@ -252,7 +255,10 @@ CHECKS = {
        'guarded-command program; z3 BMC over T tasks x S scheduler steps with symbolic task kinds (reader/writer) and a symbolic action '
        'per step (run the head of the FIFO ready queue, start a task, open the gate of a task parked in its critical section, cancel a '
        'task; at most one cancellation): no step with a writer inside beside anyone, no release of an unlocked lock, no reachable '
-       'deadlock, unwinding assertion; quick T<=3 S<=10-12, thorough T<=4 S<=11-15. The asyncio.Lock/Task/Future model is validated by '
+       'deadlock, unwinding assertion; quick T<=3 S<=10-12, thorough T<=4 S<=11-15. Usable after a cancellation: a ghost balance of what '
+       'each task added to the reader count; a task that ends with a non-zero balance (also asked with all tasks created before the '
+       'first step: 3 tasks x 9 steps quick, 4 x 13 thorough) is a candidate that is decided on the REAL class: every remaining holder is '
+       'let through, then a fresh writer and a fresh reader must get in. The asyncio.Lock/Task/Future model is validated by '
        'co-simulation with the REAL class stepped one asyncio handle at a time on 1500-6000 random schedules; every counterexample is '
        'replayed on the real class. FileLock: the real write_lock/read_lock code under pysymex with a stub file system, a symbolic '
        'non-decreasing clock below the expiration and a solver-driven interleaving of two tasks: never two writers inside, lock file '
